@@ -398,6 +398,46 @@ def run(chk):
                                        "seed": hist["seed"], "config": hist["config"]})
     chk.cov["disagreements"] += st["hidden"]["disagreements"] + st["inventory"]["disagreements"]
 
+    # ---- carry-over stream (model-free): names a text DEFINES (macros) must not reach the next text parsed in the same
+    # interpreter.  One project defines `macro <name> [...]`; the next one uses `${<name>}` without defining it — in a task
+    # name (kept literally by a fresh process) or as an effort (rejected by a fresh process).  History = [run definer], probe = user.
+    co_jobs, co_meta = [], []
+    for k in range(4 if quick else 24):
+        nm = rng.choice(["rel", "dur", "who", "len"])
+        val = rng.choice(["6h", "12h", "3d"])
+        definer = (f'project d{k} "D{k}" 2025-01-06 +6w {{ timezone "Etc/UTC" }}\nmacro {nm} [{val}]\nresource r "R" {{}}\n'
+                   f'task a "A ${{{nm}}}" {{ effort ${{{nm}}} allocate r }}\ntaskreport rep "rep" {{ formats csv columns id, name, start, end }}\n')
+        if k % 2 == 0:
+            user = (f'project u{k} "U{k}" 2025-02-03 +6w {{ timezone "Etc/UTC" }}\nresource r "R" {{}}\n'
+                    f'task b "Cut ${{{nm}}}" {{ effort 8h allocate r }}\ntaskreport rep "rep" {{ formats csv columns id, name, start, end }}\n')
+        else:
+            user = (f'project u{k} "U{k}" 2025-02-03 +6w {{ timezone "Etc/UTC" }}\nresource r "R" {{}}\n'
+                    f'task b "B" {{ effort ${{{nm}}} allocate r }}\ntaskreport rep "rep" {{ formats csv columns id, name, start, end }}\n')
+        hist = {"ops": [{"k": "run", "text": definer, "newparser": k % 4 < 2}], "probe": user, "again": 0, "instrument": False,
+                "newparser": True, "seed": "0", "config": "native"}
+        co_meta.append(hist)
+        co_jobs.append(("native", [jline({"op": "hidden_history", "ops": hist["ops"], "probe": user, "again": 0, "outdir": outdir,
+                                          "instrument": False, "newparser": True, "struct": False})], {"PYTHONHASHSEED": "0"}))
+        co_jobs.append(("native", [jline({"op": "hidden_probe", "probe": user, "again": 0, "outdir": outdir, "struct": False})], {"PYTHONHASHSEED": "0"}))
+    co_out = par(chk, co_jobs)
+    carry = {"cases": 0, "name_use": 0, "effort_use": 0, "fresh_rejected": 0, "differences": 0}
+    for k, hist in enumerate(co_meta):
+        a, f = junline(co_out[2 * k][0]), junline(co_out[2 * k + 1][0])
+        if "_raw" in a or "_raw" in f:
+            raise HarnessFault(f"carry-over stream op failed in the harness: {(a.get('_raw') or f.get('_raw'))[:300]}")
+        pa = a["probe"]
+        carry["cases"] += 1
+        carry["name_use" if k % 2 == 0 else "effort_use"] += 1
+        carry["fresh_rejected"] += 1 if f.get("exc") else 0
+        if (pa.get("exc"), (pa.get("shas") or [None])[0], pa.get("cli")) != (f.get("exc"), (f.get("shas") or [None])[0], f.get("cli")):
+            carry["differences"] += 1
+            found.append(("a text parsed after another one in the same interpreter gives another result than alone in a fresh process "
+                          "(a macro the earlier text defined is expanded in the later one)",
+                          {"history": flat_history(hist), "text": hist["probe"], "after_history": [pa.get("exc"), pa.get("shas"), pa.get("cli")],
+                           "fresh": [f.get("exc"), f.get("shas"), f.get("cli")]}))
+    st["carry_over"] = carry
+    chk.cov["evaluations"] += 2 * len(co_meta)
+
     # ---- F21 decision stream: schedule() a second and third time on unschedulable probes
     n_f21 = 45 if quick else 1500
     fam = [c12gen.sort_fix(c12gen.gen_project(rng, ["limits", "shared", "lowefficiency", "deadlock", "ok"][i % 5], pid=f"f{i}")) for i in range(n_f21)]
@@ -550,6 +590,9 @@ def replay(chk, data):
     print("run_scriptplan after history:", cli_a)
     print("run_scriptplan fresh process:", cli_f)
     if cli_a != cli_f:
+        bad = True
+    if out.get("probe", {}).get("exc") != fresh.get("exc"):
+        print("exception after history:", out.get("probe", {}).get("exc"), "| fresh process:", fresh.get("exc"))
         bad = True
     chk.impl.close()
     if bad:
